@@ -413,7 +413,15 @@ func (x *hw) httpwireScanWrap(out *strings.Builder) {
 			if _, isDecl := s.(*ast.DeclStmt); isDecl {
 				continue
 			}
-			ws = append(ws, d.httpwireStmt(s))
+			row := d.httpwireStmt(s)
+			// the reader over the file is made anew: which constructor makes it (bufio.NewScanner, a helper that also sizes the
+			// scanner's buffer, json.NewDecoder) does not matter here, only that it reads `recv.file`
+			if as, ok := s.(*ast.AssignStmt); ok && len(as.Lhs) == 1 && len(as.Rhs) == 1 {
+				if call, ok := as.Rhs[0].(*ast.CallExpr); ok && len(call.Args) == 1 && d.desc(call.Args[0]) == "recv.file" {
+					row = d.desc(as.Lhs[0]) + "=new-reader(recv.file)"
+				}
+			}
+			ws = append(ws, row)
 		}
 		// sorted: the statements are independent of each other's order as far as the wire goes (the header reset, the seek and the
 		// new reader may stand in any order; whether the pass is counted before or after its check is a matter of ammo counts)
